@@ -83,15 +83,20 @@ def main():
         if a.keep:
             dst = os.path.join('/verif/seeded', a.seed_id)
             os.makedirs(dst, exist_ok=True)
-            shutil.copy(os.path.join(src, 'patch.diff'), dst)
-            shutil.copy(os.path.join(src, 'demo.py'), dst)
-            if os.path.exists(os.path.join(src, 'notes.md')):
-                shutil.copy(os.path.join(src, 'notes.md'), dst)
+            if os.path.abspath(src) != os.path.abspath(dst):       # re-evaluating a stored seed in place: nothing to copy
+                shutil.copy(os.path.join(src, 'patch.diff'), dst)
+                shutil.copy(os.path.join(src, 'demo.py'), dst)
+                if os.path.exists(os.path.join(src, 'notes.md')):
+                    shutil.copy(os.path.join(src, 'notes.md'), dst)
             old = {}
             mp = os.path.join(dst, 'meta.json')
             if os.path.exists(mp):
                 old = json.load(open(mp))
+            merged = dict(old.get('checks_rc', {}))
+            merged.update(caught)                                   # a partial re-run replaces only the checks it ran
             old.update(meta)
+            old['checks_rc'] = merged
+            old['caught_by'] = [c for c, rc in merged.items() if rc == 1]
             json.dump(old, open(mp, 'w'), indent=1)
         return 0
     finally:
